@@ -166,15 +166,11 @@ def obligations(tier):
                   claim='exactly one status line, headers terminated, body framed as announced'))
     ntok = 7 if q else 11
     for m, mname in enumerate(('POST', 'GET')):
-        for t0 in ([None] if q else range(ntok)):
-            bind = {'method': m, 'ntok': ntok}
-            if t0 is not None:
-                bind['t0'] = t0
-            obs.append(Ob(f'C13.target.tokens.{mname}' + ('' if t0 is None else f'.t{t0}'), 'harness.C13', 'handler_target', bind=bind,
-                          timeout=t, twin=(t0 in (None, 1)), functions=HANDLER, stubs=hstubs,
-                          bounds=f'request targets composed of <= 4 tokens from the first {ntok} of ("", "/", "k", "z", "?", "#", ":", '
-                                 '"wsdl", "http://h", "[", "*")',
-                          claim=f'do_{mname} always produces a status line and lets no exception escape'))
+        obs.append(Ob(f'C13.target.tokens.{mname}', 'harness.C13', 'handler_target', bind={'method': m, 'ntok': ntok},
+                      timeout=t if q else 900, functions=HANDLER, stubs=hstubs,
+                      bounds=f'request targets composed of <= 4 tokens from the first {ntok} of ("", "/", "k", "z", "?", "#", ":", '
+                             '"wsdl", "http://h", "[", "*")',
+                      claim=f'do_{mname} always produces a status line and lets no exception escape'))
     return obs
 
 
